@@ -598,6 +598,68 @@ def run_nonuniform(ctx, hook):
             check_private_state(ctx, q, rng, 'nonuniform')
 
 
+def run_construction_contract(ctx, hook):
+    """What the constructors promise about their arguments: (a) a grid with an outermost node outside the interval product -
+    by however little, at unit or at nanometre scale - is refused (every grid point lies in its own cell only if it lies in
+    the set); (b) the objects keep private copies of the arrays they were built from: writing into the caller's buffers
+    afterwards changes nothing."""
+    rng = ctx.rng('construction-contract')
+    hook.origin = 'construction-contract'
+    for scale in (1.0, 1e-9, 1e6):
+        for nd in (1, 2):
+            for side, rel_out in itertools.product(('low', 'high'), (1e-3, 1e-9, 1e-12)):
+                ctx.ev('uniform-model')
+                ctx.case('construction;node-outside;%dd' % nd, (scale, side, rel_out))
+                shape = (4, 3)[:nd]
+                mn = np.array([0.0, -1.0][:nd]) * scale
+                mx = np.array([1.0, 2.0][:nd]) * scale
+                p0 = odl.uniform_partition(mn, mx, shape, nodes_on_bdry=True)
+                cvs = [np.array(cv, copy=True) for cv in p0.grid.coord_vectors]
+                h = cvs[0][1] - cvs[0][0]
+                if side == 'low':
+                    cvs[0][0] -= rel_out * h
+                else:
+                    cvs[0][-1] += rel_out * h
+                if not (cvs[0][0] < mn[0] or cvs[0][-1] > mx[0]):
+                    ctx.skip('perturbation below the resolution of the coordinates')
+                    continue
+                cfg = 'scale=%g;outside-by=%g-cells' % (scale, rel_out)
+                try:
+                    bad = odl.RectPartition(odl.IntervalProd(mn, mx), odl.RectGrid(*cvs))
+                    ctx.violation('RectPartition', cfg, 'bad-input-accepted', min_pt=mn, node=float(cvs[0][0] if side == 'low' else cvs[0][-1]))
+                except ValueError:
+                    pass
+                except Exception as e:
+                    ctx.violation('RectPartition', cfg, 'wrong-exception:' + type(e).__name__)
+    # (b) argument privacy
+    for nd in (1, 2, 3):
+        ctx.ev('private-state')
+        ctx.case('construction;argument-privacy;%dd' % nd, 0)
+        try:
+            box = np.array([rng.uniform(-2, -1, size=nd), rng.uniform(1, 2, size=nd)])     # rows are float64 views of one buffer
+            cvs = [np.linspace(-0.9, 0.9, int(k)) for k in rng.integers(2, 5, size=nd)]
+            intv = odl.IntervalProd(box[0], box[1])
+            grid = odl.RectGrid(*cvs)
+            part = odl.RectPartition(intv, grid)
+            part2 = odl.uniform_partition(box[0], box[1], tuple(int(k) for k in rng.integers(2, 5, size=nd)))
+            shp = np.array([3] * nd)
+            part3 = odl.uniform_partition_fromintv(odl.IntervalProd(box[0], box[1]), shp)
+            before = [_state(part), _state(part2), _state(part3), repr(intv), repr(grid)]
+            box *= 3.0
+            box += 0.25
+            for cv in cvs:
+                cv *= 2.0
+            shp += 1
+            after = [_state(part), _state(part2), _state(part3), repr(intv), repr(grid)]
+            names = ['RectPartition(IntervalProd(arrays), RectGrid(arrays))', 'uniform_partition(arrays)', 'uniform_partition_fromintv', 'IntervalProd(arrays)', 'RectGrid(arrays)']
+            for nm, b_, a_ in zip(names, before, after):
+                if b_ != a_:
+                    ctx.violation(nm.split('(')[0], 'constructor-arguments', 'state-follows-the-callers-buffer', how=nm)
+            tiling(ctx, part, 'argument-privacy')
+        except Exception as e:
+            ctx.violation('RectPartition', 'constructor-arguments', 'raises:' + type(e).__name__, message=str(e)[:200])
+
+
 def run_ambient(ctx, hook):
     """Partitions the library builds for itself (discretizations, resize, Fourier range) via the init hook."""
     hook.origin = 'library-internal'
@@ -630,6 +692,7 @@ def run(ctx):
     run_uniform(ctx, hook)
     run_nonuniform(ctx, hook)
     if ctx.shard == 0:
+        run_construction_contract(ctx, hook)
         run_ambient(ctx, hook)
     cov.disarm()
     n_exec, n_hit, unreached = cov.report()
